@@ -181,9 +181,7 @@ pub fn check<I: Inputs>(vt: &'static Vt<I>, ctx: &Ctx) -> DeclReport {
                 }
             }
             if let Some(f) = vt.ord_minmax {
-                if let Some(Some(pc)) = a.inner_partial_cmp(&b) {
-                    // std: max returns the second argument when equal, min the first
-                    let (hi, lo) = if pc == std::cmp::Ordering::Greater { (a.clone(), b.clone()) } else { (b.clone(), a.clone()) };
+                if let Some((hi, lo)) = a.inner_max_min(&b) {
                     match no_panic(|| f(p.0.clone(), p.1.clone())) {
                         Ok(Some((gh, gl))) if gh.inner_eq(&hi) && gl.inner_eq(&lo) => {}
                         other => return Outcome::fail(nontrivial, class, sig("Ord", "max-min-differ-from-inner"), format!("({}, {})", hi.to_json(), lo.to_json()), format!("{:?}", other.map(|o| o.map(|(x, y)| (x.to_json(), y.to_json()))))),
@@ -191,7 +189,7 @@ pub fn check<I: Inputs>(vt: &'static Vt<I>, ctx: &Ctx) -> DeclReport {
                 }
             }
             if let Some(f) = vt.cmp {
-                if let Some(Some(exp)) = a.inner_partial_cmp(&b) {
+                if let Some(exp) = a.inner_cmp(&b) {
                     match no_panic(|| f(p.0.clone(), p.1.clone())) {
                         Ok(Some(g)) if g == exp => {}
                         other => return Outcome::fail(nontrivial, class, sig("Ord", "differs-from-inner"), format!("{exp:?}"), format!("{other:?}")),
